@@ -17,7 +17,7 @@ from .common import *
 
 LEVEL = 'other'
 TRUSTED = TRUSTED_COMMON
-ASSUMPTIONS = ['deductive index contracts: orders 2, 3 (4 in the thorough tier) and 1-2 sweeps enumerated; mode sizes, ranks, kick, eps, the values returned by the user function and every value-dependent branch symbolic',
+ASSUMPTIONS = ['deductive index contracts: orders 2, 3 (4 in the thorough tier) and 1-2 sweeps enumerated; mode sizes, ranks, kick, eps, the values returned by the user function and every value-dependent branch symbolic; every truncation of a sampled super-core uses a threshold relative to the norm of that super-core (ghost obligation on the rank_chop contract)',
                'assumed contracts: torch.linalg.lu_factor / torch.lu_unpack (P is a permutation matrix), Tensor.topk, torch.sort, numpy.unravel_index, torch.linalg.solve (nonsingular local matrices)',
                'bounded (accuracy clause): orders 2..4, sizes 2..10 incl. sizes smaller than rank+kick, eps in {1e-4,1e-9}, targets with exact TT ranks 1..3 and smooth functions of the index sum, seeds; constant 20*eps']
 EXPLANATION = 'index contracts proved by symbolic execution with integer index tensors (uninterpreted entries with range facts instantiated on use), a loop invariant for the maxvol pivot loop and modular use of callee contracts; accuracy by bounded run-time contracts'
